@@ -107,7 +107,7 @@ def scenario(scheduler, mode, state, nb, opts):
     return None
 
 
-def cli_scenario(nb, pre):
+def cli_scenario(nb, pre, relative=False):
     with tmpdir() as d, quiet():
         with open(os.path.join(d, "fnmod.py"), "w") as f:
             f.write(FN_MODULE)
@@ -122,7 +122,8 @@ def cli_scenario(nb, pre):
                 crop.grow(tuple(pre))
             open(os.path.join(d, "calls.log"), "w").close()
             env = dict(os.environ, PYTHONPATH=REPO + os.pathsep + d)
-            p = subprocess.run([sys.executable, "-m", "xyzpy.gen.xyzpy_grow_cli", "c", "--parent-dir", d, "--verbosity", "0"], capture_output=True, text=True, env=env, cwd=d, timeout=300)
+            pd_arg, cwd = (os.path.basename(d), os.path.dirname(d)) if relative else (d, d)
+            p = subprocess.run([sys.executable, "-m", "xyzpy.gen.xyzpy_grow_cli", "c", "--parent-dir", pd_arg, "--verbosity", "0"], capture_output=True, text=True, env=env, cwd=cwd, timeout=300)
             if p.returncode:
                 return [f"xyzpy-grow failed: {(p.stderr.strip().splitlines() or [''])[-1][:300]}"]
             calls = sorted(int(l) for l in open(os.path.join(d, "calls.log")) if l.strip())
@@ -148,9 +149,9 @@ for scheduler, mode in itertools.product(("sge", "pbs", "slurm"), ("array", "sin
             pr = [f"{type(e).__name__}: {e}"]
         if pr:
             finish(True, input=dict(scheduler=scheduler, mode=mode, state=state, batches=nb, options=opts), observed=pr, tried=tried)
-for nb, pre in ((2, []), (3, [2])):
+for nb, pre, rel in ((2, [], False), (3, [2], False), (2, [1], True)):
     tried += 1
-    pr = cli_scenario(nb, pre)
+    pr = cli_scenario(nb, pre, rel)
     if pr:
-        finish(True, input=dict(cli="xyzpy-grow", batches=nb, already_grown=pre), observed=pr, tried=tried)
+        finish(True, input=dict(cli="xyzpy-grow", batches=nb, already_grown=pre, relative_parent_dir=rel), observed=pr, tried=tried)
 finish(False, tried=tried)
